@@ -166,6 +166,8 @@ pub enum Kind {
     PerformativeBody,
     SaslBody,
     MessageBytes,
+    /// an outcome / delivery state with every form of descriptor and of (empty) field list
+    OutcomeForms,
 }
 
 fn gen_encoding(kind: Kind) -> Vec<u8> {
@@ -196,6 +198,48 @@ fn gen_encoding(kind: Kind) -> Vec<u8> {
             refcodec::encode(&v)
         }
         Kind::MessageBytes => msgs::encode(&msgs::gen_message(1 + choice(1000) as u64, 120, 1)),
+        Kind::OutcomeForms => {
+            // accepted 0x24, released 0x26, rejected 0x25, modified 0x27, received 0x23
+            let (code, sym, fields): (u8, &str, Vec<u8>) = match choice(4) {
+                0 => (0x24, "amqp:accepted:list", vec![]),
+                1 => (0x26, "amqp:released:list", vec![]),
+                2 => (0x25, "amqp:rejected:list", vec![]),
+                _ => (0x27, "amqp:modified:list", if choice(2) == 0 { vec![] } else { vec![0x41] }),
+            };
+            let mut out = vec![0x00];
+            match choice(4) {
+                0 => out.extend_from_slice(&[0x53, code]),
+                1 => {
+                    out.push(0x80);
+                    out.extend_from_slice(&(code as u64).to_be_bytes());
+                }
+                2 => {
+                    out.push(0xa3);
+                    out.push(sym.len() as u8);
+                    out.extend_from_slice(sym.as_bytes());
+                }
+                _ => {
+                    out.push(0xb3);
+                    out.extend_from_slice(&(sym.len() as u32).to_be_bytes());
+                    out.extend_from_slice(sym.as_bytes());
+                }
+            }
+            let n = fields.len();
+            match choice(3) {
+                0 if n == 0 => out.push(0x45),
+                1 => {
+                    out.extend_from_slice(&[0xc0, (n + 1) as u8, n as u8]);
+                    out.extend_from_slice(&fields);
+                }
+                _ => {
+                    out.push(0xd0);
+                    out.extend_from_slice(&((n + 4) as u32).to_be_bytes());
+                    out.extend_from_slice(&(n as u32).to_be_bytes());
+                    out.extend_from_slice(&fields);
+                }
+            }
+            out
+        }
     }
 }
 
@@ -358,23 +402,45 @@ fn corrupt(buf: &mut Vec<u8>) -> String {
             format!("bitflip@{}", i)
         }
         _ => {
-            // wrap into nested lists
-            let depth = pick(&[10usize, 200, 2000, 8000]);
-            let mut inner = std::mem::take(buf);
-            for _ in 0..depth {
-                let mut outer = Vec::with_capacity(inner.len() + 9);
-                if inner.len() + 1 <= 255 {
-                    outer.extend_from_slice(&[0xc0, (inner.len() + 1) as u8, 1]);
-                } else {
-                    outer.push(0xd0);
-                    outer.extend_from_slice(&((inner.len() + 4) as u32).to_be_bytes());
-                    outer.extend_from_slice(&1u32.to_be_bytes());
+            // wrap into nested compound or described values
+            let how = choice(5);
+            let depth = if how >= 2 { pick(&[10usize, 200, 2000, 8000, 40000]) } else { pick(&[10usize, 200, 2000, 8000]) };
+            let inner = std::mem::take(buf);
+            *buf = match how {
+                0 | 1 => {
+                    // lists (how = 0) or arrays of one list (how = 1), built from the inside out
+                    let mut inner = inner;
+                    for _ in 0..depth {
+                        let mut outer = Vec::with_capacity(inner.len() + 9);
+                        let code8 = if how == 0 { 0xc0 } else { 0xe0 };
+                        if inner.len() + 1 <= 255 {
+                            outer.extend_from_slice(&[code8, (inner.len() + 1) as u8, 1]);
+                        } else {
+                            outer.push(code8 + 0x10);
+                            outer.extend_from_slice(&((inner.len() + 4) as u32).to_be_bytes());
+                            outer.extend_from_slice(&1u32.to_be_bytes());
+                        }
+                        outer.extend_from_slice(&inner);
+                        inner = outer;
+                    }
+                    inner
                 }
-                outer.extend_from_slice(&inner);
-                inner = outer;
-            }
-            *buf = inner;
-            format!("nested-x{}", depth)
+                _ => {
+                    // described values: a prefix per level, no size fields
+                    let prefix: &[u8] = match how {
+                        2 => &[0x00, 0x44],             // descriptor ulong0
+                        3 => &[0x00, 0x53, 0x70],       // descriptor smallulong
+                        _ => &[0x00, 0xa3, 0x01, b'x'], // descriptor symbol
+                    };
+                    let mut out = Vec::with_capacity(prefix.len() * depth + inner.len());
+                    for _ in 0..depth {
+                        out.extend_from_slice(prefix);
+                    }
+                    out.extend_from_slice(&inner);
+                    out
+                }
+            };
+            format!("nested-{}-x{}", ["lists", "arrays", "described-ulong0", "described-smallulong", "described-symbol"][how as usize], depth)
         }
     }
 }
@@ -588,7 +654,7 @@ pub async fn run_c04_short_strings() {
 
 /// A valid encoding followed by arbitrary trailing bytes, through both readers, in chunks of every size
 pub async fn run_c20_trailing() {
-    let kind = pick(&[Kind::AnyValue, Kind::AnyValue, Kind::PerformativeBody, Kind::SaslBody]);
+    let kind = pick(&[Kind::AnyValue, Kind::AnyValue, Kind::PerformativeBody, Kind::SaslBody, Kind::OutcomeForms, Kind::OutcomeForms]);
     let enc = gen_encoding(kind);
     let trailing: Vec<u8> = (0..choice(40)).map(|_| choice(256) as u8).collect();
     let mut bytes = enc.clone();
@@ -630,6 +696,79 @@ pub async fn run_c20_trailing() {
             format!("the value is {} bytes long; the stream reader (chunk {}) took {} bytes from the stream ({} trailing bytes followed)", enc.len(), chunk, rd.pos, trailing.len()),
         );
         return;
+    }
+    // the same through the typed decoders and the lazy value: result and stream position
+    {
+        use fe2o3_amqp_types::messaging::{DeliveryState, Outcome};
+        macro_rules! typed {
+            ($t:ty, $name:expr) => {{
+                let x: Result<$t, _> = from_slice(&bytes);
+                let mut rd = SimRead::new(bytes.clone(), chunk, 0, None);
+                let y: Result<$t, _> = from_reader(&mut rd);
+                match (x, y) {
+                    (Ok(x), Ok(y)) => {
+                        if x != y {
+                            sim::violation("readers-disagree", format!("{}: slice reader gives {:?}, stream reader (chunk {}) gives {:?}", $name, x, chunk, y));
+                            return;
+                        }
+                        if rd.pos != enc.len() {
+                            sim::violation(
+                                "trailing-bytes-consumed",
+                                format!("{}: the value is {} bytes long; the stream reader (chunk {}) took {} bytes from the stream ({} trailing bytes followed)", $name, enc.len(), chunk, rd.pos, trailing.len()),
+                            );
+                            return;
+                        }
+                        sim::probe("typed-stream-position-checked");
+                    }
+                    (Ok(x), Err(e)) => {
+                        sim::violation("readers-disagree", format!("{}: slice reader gives {:?}, stream reader (chunk {}) fails: {:?}", $name, x, chunk, e));
+                        return;
+                    }
+                    (Err(e), Ok(y)) => {
+                        sim::violation("readers-disagree", format!("{}: slice reader fails with {:?}, stream reader (chunk {}) gives {:?}", $name, e, chunk, y));
+                        return;
+                    }
+                    (Err(_), Err(_)) => {}
+                }
+            }};
+        }
+        match kind {
+            Kind::PerformativeBody => typed!(Performative, "Performative"),
+            Kind::OutcomeForms => {
+                typed!(DeliveryState, "DeliveryState");
+                typed!(Outcome, "Outcome");
+            }
+            _ => {}
+        }
+        if sim::has_violation() {
+            return;
+        }
+        // the lazy value copies exactly the bytes of the value, from either reader
+        let mut sr = serde_amqp::read::SliceReader::new(&bytes);
+        let lz_a = LazyValue::from_reader(&mut sr);
+        let mut rd = SimRead::new(bytes.clone(), chunk, 0, None);
+        let lz_b = {
+            let mut r = serde_amqp::read::IoReader::new(&mut rd);
+            LazyValue::from_reader(&mut r)
+        };
+        match (lz_a, lz_b) {
+            (Ok(x), Ok(y)) => {
+                if x.as_slice() != &enc[..] || y.as_slice() != &enc[..] {
+                    sim::violation("lazy-value-bytes", format!("the value is {}; LazyValue holds {} (slice) and {} (stream)", refcodec::hex(&enc[..enc.len().min(48)]), refcodec::hex(x.as_slice()), refcodec::hex(y.as_slice())));
+                    return;
+                }
+                if rd.pos != enc.len() {
+                    sim::violation("trailing-bytes-consumed", format!("LazyValue: the value is {} bytes long; the stream reader (chunk {}) took {} bytes from the stream", enc.len(), chunk, rd.pos));
+                    return;
+                }
+                sim::probe("lazy-value-stream-position-checked");
+            }
+            (Ok(_), Err(e)) | (Err(e), Ok(_)) => {
+                sim::violation("readers-disagree", format!("LazyValue of {}: one reader fails ({:?}), the other does not", refcodec::hex(&enc[..enc.len().min(48)]), e));
+                return;
+            }
+            (Err(_), Err(_)) => {}
+        }
     }
     // the size calculator agrees with the encoder, the value tree with the bytes
     let re = to_vec(&a).unwrap_or_default();
@@ -808,4 +947,84 @@ pub async fn run_c20_plain_typed() {
         Ok(x) if x == t => sim::probe("plain-typed-agreement-checked"),
         other => sim::violation("value-tree", format!("from_value(to_value({:?})) gives {:?}", t, other)),
     }
+}
+
+/// One generated value per run (no chunk enumeration): size calculator vs encoder and value tree vs
+/// bytes, for untyped values with arrays of variable-width elements and for typed arrays
+pub async fn run_c20_sizes() {
+    use serde_amqp::primitives::{Array, Symbol};
+    sim::mark_nontrivial();
+    // an untyped value from the independent encoder
+    let enc = gen_encoding(Kind::AnyValue);
+    sim::set_config(format!("variant=sizes value={}", refcodec::hex(&enc[..enc.len().min(64)])));
+    sim::evh_bytes(0xC20, &enc);
+    if let Ok(v) = from_slice::<Value>(&enc) {
+        let bytes = to_vec(&v).unwrap_or_default();
+        match serde_amqp::serialized_size(&v) {
+            Ok(n) if n == bytes.len() => {}
+            other => {
+                sim::violation("serialized-size", format!("serialized_size gives {:?}, the encoding of {:?} is {} bytes", other, v, bytes.len()));
+                return;
+            }
+        }
+        match serde_amqp::to_value(&v) {
+            Ok(t) if t == v => {}
+            other => {
+                sim::violation("value-tree", format!("to_value({:?}) gives {:?}", v, other));
+                return;
+            }
+        }
+    }
+    // typed arrays of variable-width elements, alone and inside a composite
+    let n = pick(&[0usize, 1, 2, 3, 5, 40]);
+    let unit = pick(&["x", "x", "é", "✓"]);
+    let strs: Vec<String> = (0..n).map(|i| unit.repeat(pick(&[0usize, 1, 2, 7, 30, 300]) + i % 2)).collect();
+    let syms: Array<Symbol> = Array::from(strs.iter().map(|s| Symbol::from(s.as_str())).collect::<Vec<_>>());
+    let arr: Array<String> = Array::from(strs.clone());
+    let bins: Array<serde_amqp::primitives::Binary> = Array::from(strs.iter().map(|s| serde_amqp::primitives::Binary::from(s.as_bytes().to_vec())).collect::<Vec<_>>());
+    let lists: Array<Vec<u32>> = Array::from((0..n).map(|i| (0..(i % 4) as u32).collect::<Vec<u32>>()).collect::<Vec<_>>());
+    let open = fe2o3_amqp_types::performatives::Open {
+        container_id: "c".into(),
+        hostname: None,
+        max_frame_size: Default::default(),
+        channel_max: Default::default(),
+        idle_time_out: None,
+        outgoing_locales: None,
+        incoming_locales: None,
+        offered_capabilities: if n == 0 { None } else { Some(syms.clone()) },
+        desired_capabilities: if n % 2 == 0 { None } else { Some(syms.clone()) },
+        properties: None,
+    };
+    macro_rules! sized {
+        ($v:expr, $name:expr) => {{
+            let bytes = match to_vec(&$v) {
+                Ok(b) => b,
+                Err(e) => {
+                    sim::violation("encode-failed", format!("{}: {:?}", $name, e));
+                    return;
+                }
+            };
+            match serde_amqp::serialized_size(&$v) {
+                Ok(k) if k == bytes.len() => {}
+                other => {
+                    sim::violation("serialized-size", format!("{}: serialized_size gives {:?}, the encoding of {:?} is {} bytes", $name, other, $v, bytes.len()));
+                    return;
+                }
+            }
+        }};
+    }
+    sized!(syms, "Array<Symbol>");
+    sized!(arr, "Array<String>");
+    // ... and the typed array comes back from its own encoding
+    match to_vec(&arr).map_err(|e| format!("{:?}", e)).and_then(|b| from_slice::<Array<String>>(&b).map_err(|e| format!("{:?}", e))) {
+        Ok(back) if back == arr => {}
+        other => {
+            sim::violation("round-trip", format!("Array<String> {:?} came back from its own encoding as {:?}", arr, other));
+            return;
+        }
+    }
+    sized!(bins, "Array<Binary>");
+    sized!(lists, "Array<Vec<u32>>");
+    sized!(open, "Open with capability arrays");
+    sim::probe("sizes-checked");
 }
